@@ -417,6 +417,19 @@ for _p, _o in _QUICK_FLOOR_OVERRIDES.items():
         else:
             _f.setdefault('classes', {})[_k] = _v
 CONFIG['C12']['floors']['quick']['classes']['cell:axis=(0, 1):kwargs=2d'] = 1
+# classes added in response to round-14 seeded changes
+for _p, _k, _v in (('C01', 'filter_options_with_defaults_written_out_as_None', 5), ('C02', 'long_recordings', 8),
+                   ('C06', 'table_columns_in_another_order', 100), ('C12', 'per_slice_list_with_entries_that_omit_settings', 2),
+                   ('C17', 'long_recording:in_quantifier', 1), ('C18', 'flatten:2d_own_column_name', 3)):
+    CONFIG[_p]['floors']['quick']['classes'][_k] = _v
+for _p, _t in (('C01', 'filter options with their documented default written out as None'),
+               ('C02', 'long recordings (70 000 - 210 000 samples) of rhythms that are fast for their sampling rate'),
+               ('C06', 'tables whose feature columns stand in another order (reversed / sorted / shuffled, further columns in between)'),
+               ('C12', 'per-slice lists whose entries leave settings out (defaults apply to that slice)'),
+               ('C17', 'one recording of more than 2**24 samples with its cyclepoints near the end'),
+               ('C18', 'custom column names with 1-D and 2-D lists'),
+               ('C19', 'unknown progress values also with axis=None')):
+    CONFIG[_p]['rule'] = CONFIG[_p]['rule'].rstrip() + '; ' + _t
 
 # thorough tiers run at least 25x the quick workload: their floors are ten times the (calibrated) quick floors
 for _p in CONFIG:
